@@ -1,2 +1,7 @@
 //! Independent reference models (DESIGN §5). None of these share code with apollo-rs.
 pub mod introspection;
+pub mod lexer;
+pub mod string;
+pub mod grammar;
+pub mod schema_rules;
+pub mod exec_rules;
